@@ -27,6 +27,7 @@ type Obligation struct {
 	Props   []string
 	Cover   bool // a cover query: expected SAT
 	Src     string
+	Reveal  []string
 	// result
 	Status string // proved, failed, unknown
 	Solver string
@@ -110,6 +111,7 @@ func (ex *Exec) addObl(kind, detail string, pos token.Pos, st *State, goal *Term
 	o.Lazy = append(o.Lazy, ex.lazy...)
 	if ex.contract != nil {
 		o.Props = ex.contract.Props
+		o.Reveal = ex.contract.Reveal
 	}
 	ex.obls = append(ex.obls, o)
 }
